@@ -3,6 +3,10 @@
 variant 0: reference run.  variant 1: same seeds, but different PYTHONHASHSEED (set by the parent),
 different pre-set GLOBAL numpy / random states and a shifted wall clock - for the determinism
 property the two must produce identical traces.  variant 2: different routine seed (non-vacuity).
+Uninitialised memory is a further source of run-to-run differences: `numpy.empty` / `numpy.empty_like` (as
+looked up by Python code at call time) return memory filled with 0x00 bytes in variants 0 and 2 and with 0x7f
+bytes (huge finite floats, large integers) in variant 1, so a result that depends on a never-written slot
+differs between the two runs of the determinism property.
 """
 import json
 import os
@@ -30,6 +34,7 @@ def main():
         importlib.import_module("rl_blox.algorithm." + m.name)
     from harness import algos  # noqa: F401
 
+    _fill_uninitialised(0x7F if variant == 1 else 0x00)
     if variant == 1:
         np.random.seed(987654)
         random.seed(424242)
@@ -53,6 +58,23 @@ def main():
     with open(out + ".tmp", "w") as f:
         json.dump(traces, f)
     os.replace(out + ".tmp", out)
+
+
+def _fill_uninitialised(byte):
+    import numpy as np
+
+    real_empty, real_empty_like = np.empty, np.empty_like
+
+    def _fill(x):
+        try:
+            if x.dtype != object and x.size:
+                x.view(np.uint8).fill(byte)
+        except Exception:  # noqa: BLE001  (non-contiguous / exotic dtype: leave as allocated)
+            pass
+        return x
+
+    np.empty = lambda *a, **k: _fill(real_empty(*a, **k))
+    np.empty_like = lambda *a, **k: _fill(real_empty_like(*a, **k))
 
 
 def _global_rng_digest():
